@@ -53,6 +53,19 @@ Fourth round (d) - 3 of 18 missed at first:
 * **C15-d** (a non-reentrant lock around ack-id generation and around the application callback in the threaded PubSubManager): needed an application callback that emits with another callback from inside the listener (`chained_cb`), and a `threading` shim so that locks created by the code under test block through the simulator's kernel - the deadlock then shows as a listener that stops, not as a hung simulator.
 
 While writing C12-d the sub-agent remarked that an event literally named `'*'` reaches a catch-all handler without the event name prepended on the *unchanged* tree; C13 was extended with that event name, reproduced it, and it was repaired (fix 9495251). Extending C04 to the msgpack serializer and the namespace name `'*'` then found the analogous defect for namespaces (fix d2beb05).
+
+Fifth round (e) - the sub-agents were asked for changes in ONE of the two implementations only (the asyncio one, depending on asyncio specifics; C14 and C20: the threaded one). 13 of 18 missed at first:
+
+* **Several packets handled back to back (C02-e, C05-e, C12-e, C18-e).** On the websocket transport engine.io reads every frame in a loop iteration of its own, so a handler task created for one frame always starts before the next frame is looked at. In ONE polling payload (an HTTP POST, which engine.io accepts for any live session) the packets are handled without returning to the event loop. Wire peers can now post such payloads (`post_pkts`); C05 sends events followed by the client's own DISCONNECT, C12 lets the offender do it, C02 got a wire-level second sender plus handlers of both kinds (plain and coroutine) side by side, C18 application handlers that emit to / leave / enter a room, with `async_handlers` on.
+* **C03-e** (binary emit re-reads the participants for every part): emits now carry bytes in a third of the cases, sends suspend (FIFO per transport), and every peer's stream must be well formed (no header without its attachments, no stray attachment) - a recipient set alone does not see half a packet.
+* **C06-e** (ack id retired after a coroutine callback returns): coroutine callbacks suspend and the same ACK arrives again on a second channel (a POST) while the first is suspended.
+* **C07-e** (publish first, local delivery in a task): one application task emits and changes the membership right after (`emit_then`).
+* **C08-e** (namespace snapshot written back after the disconnect handlers): the client's disconnect handlers suspend for a seeded time.
+* **C10-e** (abort flag cleared before every wait): shutdown() is now also issued while the attempt that follows a back-off is in flight. This exposed a defect of the unchanged AsyncClient (fix 988e2ca).
+* **C11-e** (mark after the DISCONNECT send): the end `sdisc_race_sever` - server disconnect() racing the transport loss - with suspending sends.
+* **C13-e** (iscoroutinefunction() result cached per namespace and event): after the first event a handler of the other kind is registered for the same namespace and event and the event is sent again.
+* **C15-e** (CancelledError guard only for coroutine functions): a plain callable returning a coroutine that ends cancelled; and the harness now injects the relayed acknowledgement for the application callback's own id (it used the forwarding entry's id, under which the failing callback ran nested inside a guarded call).
+* **C19-e** (input_event.clear() moved behind the reconnection wait): the server greets every (re)connected client with an event right behind the CONNECT reply, receive() is aimed at the reconnection window, and the new clause `event_held_back`: in virtual time a receive() returns an event at the instant it is available, not when something else wakes it. The aimed receive() also exposed a defect of the unchanged SimpleClient (fix db7d673).
 """
 
 
